@@ -232,7 +232,7 @@ def run(ctx):
     from . import c12 as _c12
     from .c08 import _take as _take11
     n_before = len(r3.obligations)
-    _take11(r3, _c12.run(ctx), "C12.R4", lambda c: c.startswith("get_definition_data[") and (c.endswith(":stem") or "str naming an existing file" in c))
+    _take11(r3, ctx.other(_c12), "C12.R4", lambda c: c.startswith("get_definition_data[") and (c.endswith(":stem") or "str naming an existing file" in c))
     r3.check(len(r3.obligations) - n_before >= 5, "get_definition_data:file stem", "the fallback-name obligations of C12.R4 were evaluated", gdd.loc())
     dtd = ctx.func("pyxform.xls2json_backends:definition_to_dict", "C11.R3")
     r3.check(any(isinstance(c, ast.Call) and call_name(c) == "DefinitionData" and kw(c, "fallback_form_name") is not None and norm(kw(c, "fallback_form_name")) == "definition.file_path_stem"
@@ -420,7 +420,7 @@ def run(ctx):
     from .c08 import _take as _take_s
     r_s = Rule("C11", "C11.R10", "the settings that reach the header are those of the sheet named settings", floor=3,
                necessary="a stray copy of the settings sheet replacing the real one changes title, id and version silently")
-    _take_s(r_s, _c12s.run(ctx), "C12.R2", lambda c: c.startswith("xls_to_dict:stray sheet copy") or c.startswith("xlsx_to_dict:stray sheet copy"))
+    _take_s(r_s, ctx.other(_c12s), "C12.R2", lambda c: c.startswith("xls_to_dict:stray sheet copy") or c.startswith("xlsx_to_dict:stray sheet copy"))
     rules.append(r_s)
     return rules
 
